@@ -147,13 +147,46 @@ class PlainDesc(object):
         return self.computed
 
 
-def make_user(cfg, hook):
+class Falsy(object):
+    """an object that is false and empty"""
+
+    def __bool__(self):
+        return False
+
+    def __len__(self):
+        return 0
+
+
+class EqualsAll(object):
+    """an object that compares equal to everything (like unittest.mock.ANY)"""
+
+    def __eq__(self, other):
+        return True
+
+    def __ne__(self, other):
+        return False
+
+    __hash__ = object.__hash__
+
+
+# VALUES an attribute that retrieval sets aside may hold: None (which inspect reads as "no
+# override" for __signature__), falsy ones, sentinels of inspect / sigtools, objects with an
+# unusual truth value or equality.  The stored value is what has to be there afterwards.
+UNUSUAL = {'None': None, 'False': False, '0': 0, "''": '', '()': (), 'a falsy object': Falsy(),
+           'an object equal to everything': EqualsAll(), 'NotImplemented': NotImplemented,
+           'sigtools._util.UNSET': UT.UNSET, 'inspect.Parameter.empty': inspect.Parameter.empty}
+
+
+def make_user(cfg, hook, values=None):
     """A fresh inspected object in configuration cfg = (slot of __wrapped__, slot of
     __signature__); every read of a tracked attribute through getattr goes through
     hook(name).  -> (object, holder of its class-level attributes, original values).
     With an OwnDesc slot the inspected object is itself a CLASS (its own __dict__
-    holds a descriptor) and "class level" is its metaclass."""
+    holds a descriptor) and "class level" is its metaclass.
+    values: {attribute name: key of UNUSUAL} -- the value stored on the OBJECT ITSELF
+    for that attribute (default: a fresh opaque object)."""
     vals = {}
+    values = values or {}
     if 'OwnDesc' in cfg:
         class M(type):
             def __getattribute__(cls, name):
@@ -176,6 +209,8 @@ def make_user(cfg, hook):
         o.__dict__['other'] = 7
     for name, slot in zip(TRACKED, cfg):
         vi, vc, vcomp = object(), object(), object()
+        if name in values:
+            vi = UNUSUAL[values[name]]
         if slot == 'OwnDesc':
             vi = PlainDesc(vcomp)
         vals[name] = (vi, vc, vcomp)
@@ -247,7 +282,7 @@ def read_sequence(cfg):
     return _READ_SEQ[cfg]
 
 
-def unit_aff(cfg, crash, rets, read_log=None):
+def unit_aff(cfg, crash, rets, read_log=None, values=None):
     """Run the real autoforwards_function with its outside callees replaced by
     oracle-driven stubs.  crash = None | ('call', k, exc) | ('get', k, exc).
     -> (result code, wrapped slot, signature slot, guard size, ncalls, ngets)"""
@@ -268,7 +303,7 @@ def unit_aff(cfg, crash, rets, read_log=None):
             raise crash[2]('injected call crash')
         return TRUE_VALUE if (rets[k] if k < len(rets) else True) else None
 
-    o, K, vals = make_user(cfg, hook)
+    o, K, vals = make_user(cfg, hook, values)
     others_before = sorted(k for k in own_dict(o) if k not in TRACKED)
     patches = [(SG, 'signature', stub), (AF, 'any_params_star', stub), (UT, 'get_ast', stub),
                (AF, 'autoforwards_ast', stub)]
@@ -468,6 +503,47 @@ def ir_correspondence(ctx, rep):
     _STATE['model_cex'] = set(tuple(int(x) for x in m) for m in
                               re.findall(r'\(\s*(\d+),\s*(\d+),\s*(\d+)%nat,\s*(\d+)(?:%N)?\s*\)', cex))
     return len(aff_cases) + len(get_cases)
+
+
+def unit_values(ctx, rep):
+    """The same real function under stubs, with UNUSUAL values stored on the object for the
+    attributes that are set aside (every configuration with an instance-level slot, every crash
+    point, success and failure paths alike).  The model has no notion of a value (it proves
+    restoration for an opaque one): these runs are decided directly."""
+    excs = (AttributeError, Boom)
+    crashes = [None] + [('call', k, e) for k in range(4) for e in excs] \
+        + [('get', k, e) for k in range(3) for e in excs]
+    ret_patterns = list(range(16))
+    n = 0
+    hist = {}
+    for w in range(5):
+        for s in range(5):
+            cfg = (SLOTS[w], SLOTS[s])
+            own = [nm for nm, sl in zip(TRACKED, cfg) if sl in ('Inst', 'Both')]
+            if not own:
+                continue
+            for vk in UNUSUAL:
+                assigns = [{nm: vk for nm in own}]
+                if len(own) == 2:
+                    assigns += [{own[0]: vk}, {own[1]: vk}]
+                for values in assigns:
+                    for cr in crashes:
+                        for bits in ret_patterns:
+                            rets = [bool(bits >> i & 1) for i in range(4)]
+                            rc, sw, ss, g, nc, ng, other = unit_aff(cfg, cr, rets, None, values)
+                            n += 1
+                            hist[vk] = hist.get(vk, 0) + 1
+                            if sw == WANT_SLOT[cfg[0]] and ss == WANT_SLOT[cfg[1]] and other and g == 0:
+                                continue
+                            rep.violation('C16:attrs-changed',
+                                          'autoforwards_function(obj): obj with __wrapped__ %s, __signature__ %s, the object itself storing %s; %s, '
+                                          'result %s; afterwards __wrapped__ is %s, __signature__ is %s' % (
+                                              cfg[0], cfg[1], ', '.join('%s = %s' % kv for kv in sorted(values.items())),
+                                              _show_crash(cr) or 'no crash', {0: 'None', 1: 'a signature', 2: 'raised'}[rc[0]],
+                                              _slot_name(sw), _slot_name(ss)),
+                                          {'kind': 'unit-aff', 'cfg': list(cfg), 'crash': _crash_json(cr), 'rets': rets, 'values': values})
+    rep.coverage['unit_runs_with_unusual_values'] = hist
+    return n
 
 
 def _slot_name(code):
@@ -989,7 +1065,146 @@ def sc_function_handbuilt_signature(inj):
     return h, ('sigtools',)
 
 
-SCENARIOS = [sc_property_backed_signature, sc_slot_backed_wrapped, sc_slot_backed_both, sc_forwarding_proxy,
+def sc_function_handbuilt_signature_empty(inj):
+    """a function whose __signature__ is a hand-built UpgradedSignature with the
+    constructor's default provenance map {} (snapshotted by value, like every signature)"""
+    def h(x, y, **kwargs):
+        pass
+    h.__signature__ = _handbuilt_sig(False, h)
+    return h, ('sigtools',)
+
+
+def sc_wraps_handbuilt_signature_empty(inj):
+    """functools.wraps copies __dict__: ONE hand-built signature object (empty provenance
+    map) is the __signature__ of the wrapper and of the wrapped function"""
+    def h(x, y, **kwargs):
+        pass
+    h.__signature__ = _handbuilt_sig(False, h)
+
+    @functools.wraps(h)
+    def outer(*args, **kwargs):
+        return h(*args, **kwargs)
+    return outer, ('sigtools', 'sigtools-all'), [h]
+
+
+def sc_forwarding_to_handbuilt_signature_empty(inj):
+    """a plain function forwarding to a callee whose __signature__ is hand-built"""
+    def h(x, y, **kwargs):
+        pass
+    h.__signature__ = _handbuilt_sig(False, h)
+
+    def caller(q, *args, **kwargs):
+        return h(*args, **kwargs)
+    return caller, ('sigtools',), [h]
+
+
+def sc_two_functions_one_handbuilt_signature(inj):
+    """one hand-built signature object installed on two unrelated functions, inspected
+    one after the other"""
+    def h1(*args, **kwargs):
+        pass
+
+    def h2(*args, **kwargs):
+        pass
+    h1.__signature__ = h2.__signature__ = _handbuilt_sig(False, h1)
+    return h1, ('sigtools', 'sigtools-all'), [h2]
+
+
+def sc_partial_of_two_functions_one_handbuilt_signature(inj):
+    def h1(x, y, **kwargs):
+        pass
+
+    def h2(x, y, **kwargs):
+        pass
+    h1.__signature__ = h2.__signature__ = _handbuilt_sig(False, h1)
+    return functools.partial(h1, 1), ('sigtools', 'sigtools-all'), [functools.partial(h2, y=2)]
+
+
+# -- attributes that retrieval sets aside, holding UNUSUAL values.  None is a legal
+# __signature__ (inspect reads it as "no override": the success path); the other values make
+# inspect raise TypeError ("unexpected object in __signature__") or make unwrapping fail: the
+# failure path.  Every crossing of every scenario is also made to raise (fault_injection).
+def _unusual_scenarios():
+    out = []
+
+    def add(kind, vk, factory):
+        ident = re.sub(r'[^A-Za-z0-9]+', '_', vk).strip('_') or 'empty_str'
+        if vk == "''":
+            ident = 'empty_str'
+        if vk == '()':
+            ident = 'empty_tuple'
+        factory.__name__ = 'sc_%s_%s' % (kind, ident)
+        factory.__doc__ = '%s = %s stored on the object itself' % (kind, vk)
+        out.append(factory)
+
+    for vk in UNUSUAL:
+        def fn_sig(inj, vk=vk):
+            def f(a, *args, **kwargs):
+                return _inner(*args, **kwargs)
+            f.__signature__ = UNUSUAL[vk]
+            return f, ('sigtools',)
+
+        def wraps_sig(inj, vk=vk):
+            def callee(a, b=2, *, c=3):
+                return a, b, c
+            callee.__signature__ = UNUSUAL[vk]
+
+            @functools.wraps(callee)        # copies __signature__ into the wrapper's __dict__
+            def mid(*args, **kwargs):
+                return callee(*args, **kwargs)
+
+            @functools.wraps(mid)
+            def outer(*args, **kwargs):
+                return mid(*args, **kwargs)
+            return outer, ('sigtools',)
+
+        def inst_sig(inj, vk=vk):
+            class Obj(object):
+                def __call__(self, q, *args, **kwargs):
+                    return _inner(*args, **kwargs)
+            o = Obj()
+            o.__signature__ = UNUSUAL[vk]
+            o.__wrapped__ = _inner2
+            return o, ('sigtools',)
+
+        def inst_wrapped(inj, vk=vk):
+            class Obj(object):
+                def __call__(self, q, *args, **kwargs):
+                    return _inner(*args, **kwargs)
+            o = Obj()
+            o.__wrapped__ = UNUSUAL[vk]
+            o.__signature__ = _ORIG['signature'](_inner2)
+            return o, ('sigtools',)
+
+        def slot_both(inj, vk=vk):
+            o = SlottedBoth(_inner)
+            o.__signature__ = UNUSUAL[vk]
+            return o, ('sigtools',)
+
+        def forwarding_to(inj, vk=vk):
+            def callee(a, b=2, *, c=3):
+                return a, b, c
+            callee.__signature__ = UNUSUAL[vk]
+
+            def caller(q, *args, **kwargs):
+                return callee(*args, **kwargs)
+            return caller, ('sigtools',), [callee]
+        add('function_signature', vk, fn_sig)
+        add('wraps_chain_signature', vk, wraps_sig)
+        add('instance_signature', vk, inst_sig)
+        add('instance_wrapped', vk, inst_wrapped)
+        add('slot_signature', vk, slot_both)
+        add('callee_signature', vk, forwarding_to)
+    return out
+
+
+UNUSUAL_SCENARIOS = _unusual_scenarios()
+
+
+SCENARIOS = [sc_function_handbuilt_signature_empty, sc_wraps_handbuilt_signature_empty,
+             sc_forwarding_to_handbuilt_signature_empty, sc_two_functions_one_handbuilt_signature,
+             sc_partial_of_two_functions_one_handbuilt_signature] + UNUSUAL_SCENARIOS + [
+             sc_property_backed_signature, sc_slot_backed_wrapped, sc_slot_backed_both, sc_forwarding_proxy,
              sc_partial_handbuilt_signature, sc_partial_handbuilt_signature_lists, sc_function_handbuilt_signature,
              sc_class_desc_noforger, sc_class_desc_forger, sc_class_desc_forwarding_init,
              sc_function_forwarding_to_class, sc_function_forwarding_to_forged_class, sc_class_getter_desc,
@@ -1148,6 +1363,10 @@ def run_e2e(name, entry, k, excname):
     inj.k = k
     inj.exc = EXC[excname] if excname else None
     fn = sigtools.signature if entry == 'sigtools' else _ORIG['signature']
+    if entry == 'sigtools-all':
+        # the root and then every further object of the scenario, one retrieval after the other
+        def fn(o):
+            return ' ; '.join(str(sigtools.signature(x)) for x in [o] + (list(made[2]) if len(made) > 2 else []))
     import warnings
     with Patched(boundary_patches(inj)):
         inj.active = True
@@ -1560,6 +1779,7 @@ def run(ctx, rep):
         n2 = ir_correspondence(ctx, rep)
     except coqrun.CoqError as e:
         rep.corr_break('IR interpreter run (coqc)', 'cases file', 'evaluates', str(e)[-600:])
+    n2 += unit_values(ctx, rep)
     # (3)
     n3 = fault_injection(ctx, rep, _STATE.get('model_cex'))
     rep.evaluations = n1 + n2 + n3
@@ -1587,11 +1807,14 @@ def replay(ctx, data):
         return v[1] if v else None
     if kind == 'unit-aff':
         cfg = tuple(r['cfg'])
-        ans = unit_aff(cfg, _crash_unjson(r['crash']), r['rets'])
+        ans = unit_aff(cfg, _crash_unjson(r['crash']), r['rets'], None, r.get('values'))
         want = WANT_SLOT
         if ans[1] != want[cfg[0]] or ans[2] != want[cfg[1]] or not ans[6] or ans[3] != 0:
-            return ('autoforwards_function(obj) with __wrapped__ %s, __signature__ %s, %s: afterwards __wrapped__ is %s, '
-                    '__signature__ is %s' % (cfg[0], cfg[1], _show_crash(_crash_unjson(r['crash'])) or 'no crash',
+            return ('autoforwards_function(obj) with __wrapped__ %s, __signature__ %s%s, %s: afterwards __wrapped__ is %s, '
+                    '__signature__ is %s' % (cfg[0], cfg[1],
+                                             (', the object itself storing ' + ', '.join('%s = %s' % kv for kv in sorted(r['values'].items())))
+                                             if r.get('values') else '',
+                                             _show_crash(_crash_unjson(r['crash'])) or 'no crash',
                                              _slot_name(ans[1]), _slot_name(ans[2])))
         return None
     if kind == 'unit-get':
